@@ -533,12 +533,23 @@ def r15e(run):
               necessity="a field without annotation (or vice versa) is dropped or untyped in the built class")
     # alias: when the attribute name differs from the property name the original key is kept as alias
     alias_ok = False
+    # roles: the alias local is what parse_field receives as alias=, the attribute name is the key of the namespace
+    # stores, the schema key is the key element of the loop those stores sit in
+    AL = {unparse(kwarg(c, "alias")) for n, c in fa.all_calls() if call_attr(c) == "parse_field" and kwarg(c, "alias") is not None}
+    ATT = {k for _, k in keys}
+    KEYS = set()
     for n in fa.cfg.nodes:
-        if n.kind == "stmt" and isinstance(n.ast, ast.Assign) and unparse(n.ast.targets[0]) == "alias" \
-                and unparse(n.ast.value) == "key":
+        if n.kind == "stmt" and isinstance(n.ast, ast.Assign) and isinstance(n.ast.targets[0], ast.Subscript) \
+                and unparse(n.ast.targets[0].value) in (NS, ANN):
+            for b in fa.cfg.dominators()[n]:
+                if b.kind == "branch" and b.is_for and b.polarity and isinstance(b.stmt.target, ast.Tuple):
+                    KEYS.add(unparse(b.stmt.target.elts[0]))
+    for n in fa.cfg.nodes:
+        if n.kind == "stmt" and isinstance(n.ast, ast.Assign) and unparse(n.ast.targets[0]) in AL \
+                and unparse(n.ast.value) in KEYS:
             alias_ok = any(isinstance(a, ast.Compare) and isinstance(a.ops[0], ast.NotEq) and p
-                           and {unparse(a.left), unparse(a.comparators[0])} == {"attname", "key"}
-                           for a, p in fa.facts.atoms_at(n))
+                           and {unparse(a.left), unparse(a.comparators[0])} == {sorted(ATT)[0], unparse(n.ast.value)}
+                           for a, p in fa.facts.atoms_at(n)) if len(ATT) == 1 else False
     run.check("R15e", f, "a renamed property keeps its schema key as the field alias", alias_ok,
               construct="renamed property loses its key",
               message="parse_object does not set alias=key when attname != key",
